@@ -296,12 +296,100 @@ except BaseException as e:
     return dict(reproduced=bool(violated), violated=violated, observed=dict(returncode=p.returncode, stdout=p.stdout[-100:]))
 
 
+def set_validate_gate_case(case):
+    """C18: a descriptor accepted by CTrait.set_validate can be used by the compiled validator without reading outside
+    the descriptor.  Three concrete probes (child processes; the third under valgrind because the out-of-bounds read
+    does not crash by itself)."""
+    import subprocess
+    prelude = r"""
+import sys
+from traits.api import HasTraits, Int
+from traits.ctraits import cTrait
+class A(HasTraits):
+    x = Int
+a = A()
+t = cTrait(0)
+"""
+    probes = {
+        "tuple-of-non-traits": prelude + r"""
+try:
+    t.set_validate((9, (1, 2)))
+except ValueError:
+    print("RESULT refused"); sys.exit(0)
+try:
+    t.validate(a, "x", (3, 4)); print("RESULT validated")
+except Exception as e:
+    print("RESULT raised", type(e).__name__)
+""",
+        "compound-of-non-tuples": prelude + r"""
+try:
+    t.set_validate((7, (1,)))
+except ValueError:
+    print("RESULT refused"); sys.exit(0)
+try:
+    t.validate(a, "x", 3); print("RESULT validated")
+except Exception as e:
+    print("RESULT raised", type(e).__name__)
+""",
+    }
+    violated, observed = [], {}
+    ob = case.get("obligation", "")
+    want = {"tuple-of-non-traits": "validate_trait_tuple" in ob, "compound-of-non-tuples": "validate_trait_complex" in ob,
+            "valgrind": "bounds:" in ob}
+    if not any(want.values()):
+        want = dict.fromkeys(want, True)
+    for label, prog in probes.items():
+        if not want[label]:
+            continue
+        p = subprocess.run([sys.executable, "-c", prog], capture_output=True, text=True, timeout=60)
+        observed[label] = (p.returncode, p.stdout.strip()[-60:])
+        if p.returncode < 0:
+            violated.append("%s: descriptor accepted by set_validate, then validate() killed the interpreter with signal %d"
+                            % (label, -p.returncode))
+    import shutil
+    if not want["valgrind"]:
+        pass
+    elif shutil.which("valgrind"):
+        prog = prelude + r"""
+for d in ((1,), (0,)):
+    try:
+        t.set_validate(d)
+    except ValueError:
+        pass
+print("RESULT done")
+"""
+        import os
+        env = dict(os.environ, PYTHONMALLOC="malloc")
+        p = subprocess.run(["valgrind", "-q", sys.executable, "-c", prog], capture_output=True, text=True, timeout=600, env=env)
+        err = p.stderr
+        hit = False
+        blocks = err.split("== \n") if False else err.split("\n==")
+        cur = []
+        for line in err.splitlines():
+            if "Invalid read" in line or "Invalid write" in line:
+                cur = [line]
+            elif cur:
+                cur.append(line)
+                if "_trait_set_validate" in line and len(cur) <= 3:
+                    hit = True
+                if len(cur) > 3:
+                    cur = []
+        observed["valgrind"] = "invalid access in _trait_set_validate" if hit else "clean"
+        if hit:
+            violated.append("set_validate((1,)): valgrind reports an invalid read inside _trait_set_validate "
+                            "(item 1 of a one-element descriptor is inspected)")
+    else:
+        observed["valgrind"] = "not available"
+    return dict(reproduced=bool(violated), violated=violated, observed=observed)
+
+
 def main():
     case = json.loads(sys.stdin.read())
     out = {"float_range": float_range_case, "ctrait_state": ctrait_state_case,
            "setattr_name_refcount": setattr_name_refcount_case,
            "compound_order": compound_order_case, "compound_slow_first": compound_slow_first_case, "dynamic_range": dynamic_range_case,
-           "string_state": string_state_case, "getset_delete": getset_delete_case}[case["family"]](case)
+           "string_state": string_state_case, "getset_delete": getset_delete_case,
+           "set_validate_gate": set_validate_gate_case}[case["family"]](case)
     print(json.dumps(out, default=repr))
 
 
